@@ -247,4 +247,17 @@ theorem f18_witness :
     fires .variablesInAllowedPosition C07.exSchema a ∧ ¬ fires .variablesInAllowedPosition C07.exSchema b := by
   decide
 
+/-- **F19 (known finding).**  Against `type Query { a: Int }` (no subscription root type),
+    `subscription { __typename }` is rejected - by the extra check of fields-on-correct-type only -
+    and `subscription { ... { __typename } }` is accepted by every rule. -/
+theorem f19_witness :
+    let s : Schema := [.type (.object 0 [] [⟨100, [], .named 6⟩]), .type (.scalar 6)]
+    let tn : Selection := .field ⟨1, 16⟩ none nTypename [] [] []
+    let a : Document := [.op ⟨.subscription, ⟨1, 1⟩, none, [], [], [tn]⟩]
+    let b : Document := [.op ⟨.subscription, ⟨1, 1⟩, none, [], [], [.inline ⟨1, 16⟩ none [] [tn]]⟩]
+    fires .fieldsOnCorrectType s a ∧ (∀ r, r ≠ .fieldsOnCorrectType → ¬ fires r s a) ∧ ∀ r, ¬ fires r s b := by
+  refine ⟨by decide, ?_, ?_⟩
+  · intro r hr; cases r <;> first | exact absurd rfl hr | decide | decide +kernel
+  · intro r; cases r <;> first | decide | decide +kernel
+
 end Gql.C14
